@@ -227,6 +227,11 @@ def layers(tier):
         for meas in ('JACCARD', 'OVERLAP_COEFFICIENT'):
             jobs.append({'gen': {'gen': 'struniv', 'alpha': 'ab', 'maxlen': 4 if quick else 5}, 'meas': meas,
                          'ths': [0.3, 0.5, 0.75, 1.0], 'tok': ['qg', q, padding, True], 'pres': pres})
+    jobs.append({'gen': {'gen': 'struniv', 'alpha': 'a\u00e9', 'maxlen': 4}, 'meas': 'EDIT_DISTANCE', 'ths': [0, 1, 2],
+                 'tok': ['qg', 2, True, False], 'pres': pres})      # non-ASCII characters
+    for meas in MEAS[:4]:           # thresholds one 4-decimal step around attainable scores
+        jobs.append({'gen': {'gen': 'univ', 'K': K}, 'meas': meas, 'pres': pres,
+                     'ths': [0.1428, 0.1429, 0.3333, 0.3334, 0.6666, 0.6667, 0.7071, 0.7072]})
     Ls = [Layer('universes', 'checks.c13:w_laws', jobs,
                 'UNIV(%d) and skewed universes x 5 set joins x 12-value threshold alphabets (all ordered pairs) x '
                 'all operators; STR({a,b},l) for edit distance (q, padding) and q-gram set joins; laws: '
